@@ -1386,11 +1386,25 @@ def _get_switch_candidate(expression, ir):
     res1 = _render_expression(arg1, ir, subexpressions=None)
 
     if res0.is_constant and not res1.is_constant:
-        return arg1, arg0
-    if res1.is_constant and not res0.is_constant:
-        return arg0, arg1
+        discriminant, case_value = arg1, arg0
+    elif res1.is_constant and not res0.is_constant:
+        discriminant, case_value = arg0, arg1
+    else:
+        return None, None
 
-    return None, None
+    # The switch is done in the discriminant's C++ type, so a case label that the
+    # discriminant can never equal (`if tag == -1` on a UInt, `== 0x1_0000_0000`
+    # on a 32-bit field) would be a narrowing conversion.  Leave such conditions
+    # to the generic (wide-arithmetic) comparison.
+    if discriminant.type.which_type == "integer":
+        value = int(case_value.type.integer.modular_value)
+        minimum = discriminant.type.integer.minimum_value
+        maximum = discriminant.type.integer.maximum_value
+        if minimum in ("-infinity", "infinity") or maximum in ("-infinity", "infinity"):
+            return None, None
+        if not int(minimum) <= value <= int(maximum):
+            return None, None
+    return discriminant, case_value
 
 
 def _generate_optimized_ok_method_body(fields, ir, subexpressions):
